@@ -344,7 +344,10 @@ def rule_shift_class(chk, A):
             if l is not None and l["k"] == "ref" and "did" in l and r is not None and r["k"] == "mcall" and r.get("cn") == "predicate":
                 pred_vars.add(l["did"])
     resets = sorted((x["l"], i) for i, x in emit.calls(lambda x: x["k"] == "mcall" and x.get("cn") == "reset" and "Opcode" in (x.get("cls") or "") and x.get("args")))
-    U = subscript.UB(emit, {}, {}, {})
+    hl = {}
+    for key, g in A["helpers"].items():
+        hl.setdefault(g.name, []).append(g)
+    U = subscript.UB(emit, {}, {}, {}, helpers=hl)
     n = nrows = 0
     for i, x in sorted(emit.calls(lambda x: x["k"] == "mcall" and x.get("cn") == "add_imm" and len(x.get("args", [])) == 2)):
         sh = emit.e(emit.strip(x["args"][1]))
@@ -381,7 +384,7 @@ def rule_shift_class(chk, A):
             nrows += 1
             if cls is not None and bound > lim:
                 # the guard may depend on the row (`op_data.opcode & B(24) ? kASR : kROR`): bound it again for this row alone
-                bound_r = subscript.UB(emit, {}, {}, {}, row_leaf=leaf).ub(x["args"][0], i)
+                bound_r = subscript.UB(emit, {}, {}, {}, row_leaf=leaf, helpers=hl).ub(x["args"][0], i)
                 if bound_r <= lim:
                     continue
             if cls is None:
@@ -427,6 +430,7 @@ def rule_sibling_checks(chk, A):
                             if z and z["k"] == "ref" and z.get("dk") == "local":
                                 compared.add(z["did"])
     n = 0
+    chk.floor(R + ":shape-locals", len(groups), 15)
     for (reg, t), lst in sorted(groups.items()):
         if len(lst) < 2:
             continue
@@ -438,4 +442,4 @@ def rule_sibling_checks(chk, A):
         chk.ob(R, "%s|%s" % ("+".join(r[5:] for r in reg), t[:60]), ok, loc="%s:%d" % (UNIT, odd[0][1] if odd else emit.line_of(lst[0][2])),
                detail="`%s` is range-tested where it is computed at line(s) %s but used untested at line(s) %s of the same case" %
                       (t[:70], ",".join(str(l) for _, l in good), ",".join(str(l) for _, l in odd)), key="siblingcheck|%s|%s" % (reg[0][5:], t[:60]))
-    chk.floor(R + ":groups", n, 2)
+    # (groups with two or more members can legitimately disappear when the duplicated code is merged into a helper)
